@@ -88,6 +88,11 @@ CHECKS = {
     technique='runtime monitoring: replica comparison (incremental vs full `gemato update`) over histories with os.utime-controlled mtimes under tzset-switched timezones; scan hook recording the first-scanned instant and injecting a modification right after a file was hashed',
     text='Two replicas live through the same 1..4 (quick) / 1..6 (thorough) rounds of add/delete/modify/touch with mtimes placed older than, equal to, 1 s / 30 min / 1 h / 10 h after the previous TIMESTAMP (read back from the Manifest), one updated incrementally, one fully, under TZ in {UTC, XXX-8, XXX8, XXX-5:30, XXX12}: Manifests must be equal apart from TIMESTAMP whenever every same-size change ends up newer than the TIMESTAMP; a TIMESTAMP written by an update must not be later than the instant the hook saw the first file scanned (also when the previous TIMESTAMP lay in the future); a file modified by the hook right after it was hashed must be picked up by the next incremental run.',
     note='Timezones sampled, no DST rules. Same-size changes not newer than the TIMESTAMP are unconstrained (U4). Assumes the system clock does not step during a run.'),
+ 'C14': dict(
+    category='exploration', design='3 C14',
+    technique='runtime monitoring: sign-option x key-state matrix through the real loader/CLI with a real GnuPG home; the written files are judged by gpg itself (--verify, --decrypt) and by the independent reader (post-condition, armor scan of every sub-Manifest)',
+    text='For generated layouts (nested, split and compressed sub-Manifests, hostile paths, plain or compressed top-level Manifest) and every combination of sign {unset,on,off} x originally signed/unsigned x key id {default, explicit, wrong} x secret key {usable, absent} the top-level Manifest written by update+save must be a cleartext-signed message exactly when signing was requested or inherited; gpg --verify must accept it with the expected key, gpg --decrypt must yield the entries in the file, those entries must describe the current tree, no sub-Manifest may contain armor, and an impossible signing must raise OpenPGPSigningFailure without leaving a plain Manifest with entries.',
+    note='Trusted: GnuPG 2.2.40 + gpg-agent, vendored test key, independent reader. A top-level Manifest that did not have to be rewritten is not judged.'),
 }
 
 def main():
